@@ -419,7 +419,7 @@ class Quantity:
     def mean(self): return Quantity(symnp.mean(self._v), self.unit)
     def sum(self): return Quantity(symnp.sum(self._v), self.unit)
     def all(self, axis=None): return symnp.all(self._v, axis)
-    def argsort(self): return symnp.argsort(self._v)
+    def argsort(self, axis=-1, kind=None): return symnp.argsort(self._v, kind=kind)
     def reshape(self, *s): return Quantity(self._v.reshape(*s), self.unit)
     def ravel(self): return Quantity(self._v.ravel(), self.unit)
     def squeeze(self): return self._symq_squeeze()
